@@ -17,4 +17,8 @@ for q, tier in ((5, 'quick'), (8, 'quick'), (11, 'thorough'), (16, 'thorough')):
     OBLIGATIONS.append(Ob('C07.float2oct_dir_q%d' % q, H, 'h_float2oct_dir', tier=tier, unwind=3, defines={'QC': q}, backend='kissat',
         bound='q=%d, every finite float32 vector with a strictly dominant component (|v_i| > 2|v_j|, |v_i| > 1e-5), incl. magnitudes up to FLT_MAX' % q,
         covers='OctahedronToolBox::FloatVectorToQuantizedOctahedralCoords<float>: direction is preserved (dominant axis and its sign), no loss of range for huge inputs'))
+OBLIGATIONS.append(Ob('C07.geom_normal_rt_q5', 'C07/geomnormal.cc', 'h_geom_normal_rt', tier='quick', unwind=12, defines={'QC': 5, 'PREDMAX': 63}, max_alloc=64,
+    backend='kissat',
+    bound='q=5, every canonical octahedral normal, ANY predicted 3D normal with components in [-63,63] (incl. zero vector and z == 0), 1 entry; the area predictor is replaced by a harness-controlled one',
+    covers='MeshPredictionSchemeGeometricNormalEncoder::ComputeCorrectionValues/EncodePredictionData, ...Decoder::DecodePredictionData/ComputeOriginalValues, OctahedronToolBox::CanonicalizeIntegerVector/IntegerVectorToQuantizedOctahedralCoords, canonicalized octahedron transform, RAnsBitEncoder/Decoder (flip bit)'))
 META = {}
